@@ -798,3 +798,18 @@ func (n *Node) QueryCount(prefix string) int {
 	}
 	return k
 }
+
+// Ready reports whether the connection completed its handshake.
+func (sc *ServerConn) Ready() bool { return sc.ready }
+
+func (c *Cluster) BadFramesCopy() []string {
+	c.mu.Lock()
+	defer c.mu.Unlock()
+	return append([]string{}, c.BadFrames...)
+}
+
+func (c *Cluster) ClearBadFrames() {
+	c.mu.Lock()
+	c.BadFrames = nil
+	c.mu.Unlock()
+}
